@@ -741,3 +741,35 @@ Proof.
     exact (strictly_head_lt _ _ Hs _ Hx').
   - apply IH. eapply strictly_tail. exact Hs.
 Qed.
+
+(* ================= the statements used by Props/C04.v ================= *)
+Lemma string_roundtrip s rest f : parse_json (S f) (json_quote s ++ rest) = Some (JStr (fixu s), rest).
+Proof. unfold parse_json. rewrite E_quote. reflexivity. Qed.
+
+Lemma record_no_forgery isprint g c msg attrs out fuel :
+  dom_cfg_b c = true -> dom_attrs_b attrs = true -> blank_print c msg = false ->
+  (rec_depth c attrs + 2 <= fuel)%nat ->
+  encode isprint g c msg attrs = Some out ->
+  exists body ms, out = body ++ [x0a] /\ parse_json fuel body = Some (JObj ms, []) /\
+                  map fst ms = member_names c attrs /\
+                  keys_ascending (attr_keys (norm_attrs attrs)) /\ NoDup (attr_keys (norm_attrs attrs)).
+Proof.
+  intros Dc Da Hb Hf He. destruct (record_roundtrip isprint g c msg attrs out fuel Dc Da Hb Hf He) as (body & E & P).
+  exists body, (json_members g c msg attrs). split; [exact E|]. split; [rewrite <- json_of_members; exact P|].
+  split; [apply json_members_names|].
+  pose proof (sort_dedupe_strict (map norm_attr attrs)) as Hs. fold (norm_attrs attrs) in Hs.
+  split; [apply strictly_keys_ascending; exact Hs|apply strictly_keys_nodup; exact Hs].
+Qed.
+
+Lemma keys_order attrs :
+  levels_strict (norm_attrs attrs) /\
+  (forall l, levels_strict l -> keys_ascending (attr_keys l) /\ NoDup (attr_keys l)) /\
+  (forall k, last_value k (norm_attrs attrs) = last_value k (map norm_attr attrs)) /\
+  (forall items, norm_value (VGroup items) = VGroup (sort_dedupe (map norm_attr items)) /\
+                 forall k, last_value k (sort_dedupe (map norm_attr items)) = last_value k (map norm_attr items)).
+Proof.
+  split; [apply norm_attrs_levels|]. split.
+  { intros l H. inversion H as [l' Hs _]; subst. split; [apply strictly_keys_ascending|apply strictly_keys_nodup]; exact Hs. }
+  split; [intros k; apply last_wins|].
+  intros items. split; [apply norm_group|intros k; apply last_wins].
+Qed.
